@@ -7,13 +7,15 @@ ID = "C01"
 PROPS_MODULE = "AslProps.C01"
 DRIVER = "c01"
 SHRINK_KEEP_FIRST = 1          # every case starts with `<p> reset`
+ORACLE_PURE = True             # oracle() replays the case on a fresh Ref, no side effects: the engine ranks and shrinks failures with it,
+                               # so a failure that breaks a clause of the property keeps breaking one while it is minimised
 NS = 6
 
 RULE = ("case = one operation history (1..~600 ops) on six handle slots of Array/Stack/Queue of int, String or a counted "
         "element type with a heap payload: new/copy/assign/drop handles, append, insert at every position, self-referential "
         "insert/append (a << a[j], a.insert(k, a[j]), a.insert(k, b[j]) with b sharing the block, a.append(a), a.copy(a)), "
         "remove(i,n), removeOne, removeLast, resize up/down, reserve, clear, sort (both overloads), sortBy, slice(i) and slice(i,0), histories on Array<Node> with arguments stored inside an element of the same array (a = a[j].kids, append, copy), pointer variants Array(p,n)/copy(p,n)/append(p,n) incl. p inside the same array, remove with counts up to INT_MAX, operator-comma, range-for / foreach / Enumerator / slice_, slice, clone, dup, concat, "
-        "reversed, filter, removeIf, copy, element writes, push/pop/popget/top, put/get; after every op the length, elements, "
+        "reversed, filter, removeIf, copy, element writes, push/pop/popget/top, put/get; plus histories that take a block of capacity just below / at / above the 2048-byte large-block line of reserve() (built by Array(n), reserve, resize or a run of appends), share it between 2-4 handles, bring it to length 0 through one of them by every member that can (clear, resize(0), remove, removeIf, copy of nothing, pop(n), drains by removeLast/removeOne/pop/popget/get) and refill it through either; after every op the length, elements, "
         "rc() and cap() of all six handles (and the live-object counter) are compared; non-trivial = distinct history with a "
         "mid-array insert/remove and at least one capacity growth")
 TRUSTED = ["harness/c01.cpp Counted element type (global live counter, heap payload, un-cleared pointer so that destroying a "
@@ -769,11 +771,132 @@ def gen_nested(rng, nops):
     return lines
 
 
+LARGE_BYTES = 2048      # reserve() tells small blocks (malloc + copy) from large ones (realloc) at this many bytes of capacity
+
+
+def gen_shared_empty(rng, t, cont):
+    """the class 'a block of chosen capacity, held by several live handles, is brought to length 0 through one of
+    them and then refilled': capacities on both sides of the 2048-byte line of reserve() (and well beyond it), built in
+    every way a capacity comes about (Array(n), reserve, resize, a run of appends), lengths 1 .. capacity, 2-4 sharing
+    handles plus an optional clone, EVERY member that can reach length 0 (clear, resize(0), remove(0,n), remove with a
+    count beyond the end, removeIf of everything, copy of an empty array / empty pointer range / empty braced list,
+    pop(n), and for short arrays a drain by removeLast / remove(0) / removeOne / pop / popget / get, also alternating
+    between the handles), then mutations through the acting and through another handle (so that a handle that let go
+    of the shared block is seen by the NEXT operation even when the emptying itself looked right).  Nothing here grows
+    a shared block, so the python oracle has an opinion on every line."""
+    p = t + cont
+    ref = Ref(t)
+    lines = [p + " reset"]
+
+    def emit(s):
+        lines.append(p + " " + s)
+        ref.do(s.split(), render=False)
+
+    thr = -(-LARGE_BYTES // ESZ[t])                      # first capacity (in elements) of a large block
+    cap = rng.choice([thr - 1, thr, thr, thr + 1, thr + rng.randrange(2, thr), 2 * thr, 3 * thr + rng.randrange(40),
+                      max(thr // 2, 24), rng.randrange(24, thr)])
+    slots = list(range(NS))
+    rng.shuffle(slots)
+    h = slots[0]
+    how = rng.choice(["newn", "res", "rsz", "apps", "resapps"])
+    if how == "apps" and cap > thr + 1:
+        cap = rng.choice([thr - 1, thr, thr + 1])        # a run of single appends: keep the history short
+    if how == "newn":
+        emit("newn %d %d %s" % (h, cap, rval(rng, t)))
+    else:
+        emit("new %d" % h)
+        if how == "res":
+            emit("res %d %d" % (h, cap))
+        elif how == "rsz":
+            emit("rsz %d %d %s" % (h, cap, rval(rng, t)))
+        else:
+            if how == "resapps":                         # last growth step taken by insert()'s own doubling
+                emit("res %d %d" % (h, (cap + 1) // 2))
+            guard = 0
+            while ref.H[h].cap < cap and guard < 1400:
+                guard += 1
+                n = len(ref.H[h].l)
+                if how == "resapps" and n < ref.H[h].cap - 1 and rng.random() < 0.9:
+                    emit("rsz %d %d %s" % (h, ref.H[h].cap, rval(rng, t)))
+                else:
+                    emit("app %d %s" % (h, rval(rng, t)))
+    c = ref.H[h]
+    L = rng.choice([1, 1, 2, 3, rng.randrange(1, 7), rng.randrange(1, 13), c.cap, c.cap - 1, rng.randrange(1, c.cap + 1)])
+    if L != len(c.l):
+        emit("rsz %d %d %s" % (h, L, rval(rng, t)))
+    for _ in range(rng.randrange(0, 4)):
+        emit("set %d %d %s" % (h, rng.randrange(L), rval(rng, t, True)))
+    share = [h]
+    for g in slots[1:1 + rng.randrange(1, 4)]:
+        if rng.random() < 0.3:
+            emit("new %d" % g)
+            emit("asg %d %d" % (g, rng.choice(share)))
+        else:
+            emit("cp %d %d" % (g, rng.choice(share)))
+        share.append(g)
+    free = [s for s in slots if s not in share]
+    if rng.random() < 0.5:
+        emit("clone %d %d" % (free.pop(), rng.choice(share)))
+    for _ in range(rng.randrange(1, 4)):
+        a = rng.choice(share)
+        n = len(c.l)
+        if n == 0:
+            emit("app %d %s" % (a, rval(rng, t)))
+            n = 1
+        whole = ["clr %d" % a, "rsz %d 0 %s" % (a, rval(rng, t)), "rem %d 0 %d" % (a, n), "remif %d 0 0" % a,
+                 "remx %d 0 %d" % (a, n), "copyown %d %d 0" % (a, rng.randrange(n + 1)), "copyp %d" % a, "asgil %d" % a, "EMPTYSRC"]
+        if cont == "k":
+            whole += ["popn %d %d" % (a, n)] * 3
+        if n <= 6 and rng.random() < 0.6:
+            one = ["reml %d", "rem %d 0 1", "REMONE"] + (["pop %d", "popget %d"] * 2 if cont == "k" else []) + (["qget %d"] * 4 if cont == "q" else [])
+            while len(c.l) > 0:
+                b = a if rng.random() < 0.7 else rng.choice(share)
+                o = rng.choice(one)
+                emit("remone %d %s 0" % (b, enc(t, c.l[0])) if o == "REMONE" else o % b)
+        else:
+            o = rng.choice(whole)
+            if o == "EMPTYSRC":
+                e = free[0] if free else None
+                if e is None:
+                    o = "clr %d" % a
+                else:
+                    emit("new %d" % e)
+                    o = "copy %d %d" % (a, e)
+            emit(o)
+        # what the handles show after the block was emptied, and after each further change through either of them
+        for _ in range(rng.randrange(1, 5)):
+            b = a if rng.random() < 0.6 else rng.choice(share)
+            n = len(c.l)
+            w = rng.random()
+            if w < 0.45 or n == 0:
+                emit(("push %d %s" if cont == "k" and rng.random() < 0.6 else "put %d %s" if cont == "q" and rng.random() < 0.6 else "app %d %s") % (b, rval(rng, t, True)))
+            elif w < 0.6:
+                emit("ins %d %d %s" % (b, rng.randrange(n + 1), rval(rng, t)))
+            elif w < 0.7:
+                emit("rsz %d %d %s" % (b, rng.randrange(1, min(c.cap, 9) + 1), rval(rng, t)))
+            elif w < 0.8:
+                emit("set %d %d %s" % (b, rng.randrange(n), rval(rng, t)))
+            elif w < 0.9:
+                emit("eq %d %d" % (b, rng.choice(share)))
+            else:
+                emit("appil %d %s" % (b, " ".join(rval(rng, t) for _ in range(rng.randrange(1, 4)))))
+    if rng.random() < 0.8:
+        for i in range(NS):
+            if ref.H[i] is not None:
+                emit("drop %d" % i)
+    return lines
+
+
 def gen(rng, tier):
     cases = []
     quick = tier == "quick"
     nsmall, nmed, nlarge = (1000, 320, 90) if quick else (30000, 9000, 1200)
     kinds = ["ia", "sa", "ca", "ca", "sa", "ik", "sk", "ck", "iq", "sq", "cq"]
+    # a block on either side of the large-block line, shared by several handles, emptied through one of them, refilled
+    # (first: the engine ranks the first 64 failures by the oracle's verdict, these are the ones with several handles)
+    for i in range(154 if quick else 2200):
+        p = kinds[i % len(kinds)]
+        cases.append(gen_shared_empty(rng, p[0], p[1]))
     for i in range(nsmall):
         p = kinds[i % len(kinds)]
         cases.append(gen_case(rng, p[0], p[1], rng.randrange(1, 40), "small", exclusive=(i % 2 == 0)))
